@@ -224,6 +224,8 @@ pub struct PubLayout {
     pub auth_end: usize,
     pub member_sender: bool,
     pub is_commit: bool,
+    /// offset of the content (application data / Proposal / Commit) inside the message
+    pub body_start: usize,
 }
 
 pub fn public_layout(b: &[u8]) -> Option<PubLayout> {
@@ -243,56 +245,13 @@ pub fn public_layout(b: &[u8]) -> Option<PubLayout> {
     }
     r.vec().ok()?; // authenticated data
     let ct = r.u8().ok()?;
+    let body_start = r.pos;
     match ct {
         1 => {
             r.vec().ok()?;
         }
         2 => {
-            // Proposal: type u16 + body. Only the types the simulator produces are laid out here.
-            let pt = r.u16().ok()?;
-            match pt {
-                1 => {
-                    // add: KeyPackage { version, cipher_suite, init_key<V>, leaf_node, extensions<V>, signature<V> }
-                    r.u16().ok()?;
-                    r.u16().ok()?;
-                    r.vec().ok()?;
-                    skip_leaf(&mut r)?;
-                    r.vec().ok()?;
-                    r.vec().ok()?;
-                }
-                2 => skip_leaf(&mut r)?,
-                3 => {
-                    r.u32().ok()?;
-                }
-                4 => {
-                    // psk: PreSharedKeyID
-                    let t = r.u8().ok()?;
-                    if t == 1 {
-                        r.vec().ok()?;
-                    } else {
-                        r.u8().ok()?;
-                        r.vec().ok()?;
-                        r.u64().ok()?;
-                    }
-                    r.vec().ok()?;
-                }
-                5 => {
-                    r.vec().ok()?;
-                    r.u16().ok()?;
-                    r.u16().ok()?;
-                    r.vec().ok()?;
-                }
-                6 => {
-                    r.vec().ok()?;
-                }
-                7 => {
-                    r.vec().ok()?;
-                }
-                _ => {
-                    // custom / self-remove style proposals: opaque data<V> or nothing; not laid out
-                    return None;
-                }
-            }
+            skip_proposal(&mut r)?;
         }
         3 => {
             r.vec().ok()?; // proposals
@@ -316,7 +275,115 @@ pub fn public_layout(b: &[u8]) -> Option<PubLayout> {
         auth_end,
         member_sender: st == 1,
         is_commit: ct == 3,
+        body_start,
     })
+}
+
+/// skip one Proposal structure (type + body); returns the type and the byte range of the body. Only the types the
+/// simulator produces are laid out here.
+pub fn skip_proposal(r: &mut Rd) -> Option<(u16, usize, usize)> {
+    let pt = r.u16().ok()?;
+    let start = r.pos;
+    match pt {
+        1 => {
+            // add: KeyPackage { version, cipher_suite, init_key<V>, leaf_node, extensions<V>, signature<V> }
+            r.u16().ok()?;
+            r.u16().ok()?;
+            r.vec().ok()?;
+            skip_leaf(r)?;
+            r.vec().ok()?;
+            r.vec().ok()?;
+        }
+        2 => skip_leaf(r)?,
+        3 => {
+            r.u32().ok()?;
+        }
+        4 => {
+            // psk: PreSharedKeyID
+            let t = r.u8().ok()?;
+            if t == 1 {
+                r.vec().ok()?;
+            } else {
+                r.u8().ok()?;
+                r.vec().ok()?;
+                r.u64().ok()?;
+            }
+            r.vec().ok()?;
+        }
+        5 => {
+            r.vec().ok()?;
+            r.u16().ok()?;
+            r.u16().ok()?;
+            r.vec().ok()?;
+        }
+        6 => {
+            r.vec().ok()?;
+        }
+        7 => {
+            r.vec().ok()?;
+        }
+        0xF003 => {} // self-remove: empty body
+        x if x >= 0xF000 => {
+            r.vec().ok()?;
+        }
+        _ => return None,
+    }
+    Some((pt, start, r.pos))
+}
+
+/// the PreSharedKeyIDs a public commit injects, in the order of its proposals (RFC 9420 §8.4); by-reference
+/// proposals are looked up among the public proposals of the commit's epoch. None when something cannot be read.
+pub fn commit_psk_ids(w: &World, msg: &Msg) -> Option<Vec<PskId>> {
+    if msg.private {
+        return None;
+    }
+    let l = public_layout(&msg.bytes)?;
+    if !l.is_commit {
+        return None;
+    }
+    let mut r = Rd::new(&msg.bytes[..l.content_end]);
+    r.pos = l.body_start;
+    let list = r.vec().ok()?;
+    let mut lr = Rd::new(list);
+    let mut out = vec![];
+    while lr.left() > 0 {
+        match lr.u8().ok()? {
+            1 => {
+                let (pt, a, b) = skip_proposal(&mut lr)?;
+                if pt == 4 {
+                    out.extend(parse_psk_ids(&list[a..b]));
+                }
+            }
+            2 => {
+                let pref = lr.vec().ok()?.to_vec();
+                let props = w.groups[msg.g].props.get(&msg.epoch)?;
+                let mut found = false;
+                for pid in props {
+                    let pm = &w.msgs[pid];
+                    if pm.private {
+                        continue;
+                    }
+                    if crate::c10::proposal_ref_of(w.cfg.suite, &pm.bytes).as_deref() != Some(&pref[..]) {
+                        continue;
+                    }
+                    let pl = public_layout(&pm.bytes)?;
+                    let mut pr = Rd::new(&pm.bytes[..pl.content_end]);
+                    pr.pos = pl.body_start;
+                    let (pt, a, b) = skip_proposal(&mut pr)?;
+                    if pt == 4 {
+                        out.extend(parse_psk_ids(&pm.bytes[a..b]));
+                    }
+                    found = true;
+                    break;
+                }
+                if !found {
+                    return None;
+                }
+            }
+            _ => return None,
+        }
+    }
+    Some(out)
 }
 
 fn skip_leaf(r: &mut Rd) -> Option<()> {
@@ -636,6 +703,26 @@ pub fn on_epoch(w: &mut World, p: usize, g: usize, how: &str) -> VResult<()> {
     // psk secret
     let mut psk = vec![0u8; alg.len()];
     let mut psk_known = no_psk_in_model;
+    // the PSK ids as the commit itself lists them (by value and by reference, in proposal order)
+    let from_commit = commit_psk_ids(w, &msg);
+    if let (Some(fw), Some(ids)) = (&fw, &from_commit) {
+        w.stats.check("welcome-psk-ids-equal-commit");
+        let a: Vec<&Vec<u8>> = fw.psks.iter().map(|p| &p.raw).collect();
+        let b: Vec<&Vec<u8>> = ids.iter().map(|p| &p.raw).collect();
+        if a != b {
+            return Err(viol(
+                w,
+                "psk-order",
+                "welcome-psk-ids-differ-from-commit".into(),
+                format!(
+                    "commit {cid}: the PreSharedKeyIDs in the Welcome's GroupSecrets ({}) are not the PreSharedKeyIDs of the commit's proposals in commit order ({})",
+                    a.len(),
+                    b.len()
+                ),
+            ));
+        }
+    }
+    let ids_known: Option<Vec<PskId>> = fw.as_ref().map(|f| f.psks.clone()).or(from_commit);
     if let Some(fw) = &fw {
         // RFC 9420 §8.4 / §12.4.3.1: the PSK list follows the order of the PSK proposals in the commit. For commits
         // whose PSKs were all given by value the simulator knows that order (externals as listed, then resumptions)
@@ -665,9 +752,11 @@ pub fn on_epoch(w: &mut World, p: usize, g: usize, how: &str) -> VResult<()> {
                 ));
             }
         }
+    }
+    if let Some(ids) = &ids_known {
         let mut vals = vec![];
         let mut ok = true;
-        for id in &fw.psks {
+        for id in ids {
             if let Some(ext) = &id.external_id {
                 match w.parties[msg.sender].pskstore.peek(ext) {
                     Some(v) => vals.push((id.raw.clone(), v)),
